@@ -224,6 +224,8 @@ type reqInfo struct {
 	Tx       abci.TxResult
 	FetchBad map[uint64]bool // external id -> executable cannot be fetched
 	Exec     map[uint64][]byte // external id -> the executable its data source has while the request is handled
+	ReportedBefore bool // the validator's report for this request was accepted by the chain before the daemon (re)started
+	Earlier        bool // the request was made before the daemon (re)started
 }
 
 // RunOne: chain part outside the bubble, daemon part inside.
@@ -352,6 +354,30 @@ func RunOne(o core.RunOpts) (res *core.RunResult) {
 		}
 		return out
 	}
+	// optional: the daemon is RE-started. Requests were made while an earlier incarnation ran; for some of them that incarnation's
+	// report is already on chain. The new incarnation learns what is still open from the node's PendingRequests query (below).
+	var reqs0 []*reqInfo
+	if ch.Bool("cfg.restart", 250) {
+		reqs0 = createBatch(1+ch.Intn("cfg.nreq0", 3), 0)
+		for _, ri := range reqs0 {
+			ri.Earlier = true
+			if !ri.Chosen || !ch.Bool("restart.reported", 600) {
+				continue
+			}
+			var raws []oracletypes.RawReport
+			for _, rr := range ri.Stored.RawRequests {
+				raws = append(raws, oracletypes.NewRawReport(rr.ExternalID, 0, []byte("earlier")))
+			}
+			w.Submit(&world.Intent{Signer: me.Account, Msgs: []sdk.Msg{oracletypes.NewMsgReportData(oracletypes.RequestID(ri.ID), raws, me.Val)}, Tag: "earlier_report"})
+			blk := w.NextBlock(world.BlockOpts{})
+			for _, tx := range blk.Txs {
+				if tx.Intent.Tag == "earlier_report" && tx.OK() {
+					ri.ReportedBefore = true
+					st.Fault("request_already_reported_before_daemon_restart")
+				}
+			}
+		}
+	}
 	reqs := createBatch(1+ch.Intn("cfg.nreq", 4), 0)
 	if w.Halt != nil {
 		res.Err = "chain halted during setup: " + w.Halt.Err
@@ -389,11 +415,31 @@ func RunOne(o core.RunOpts) (res *core.RunResult) {
 	}
 	table := map[string][]byte{}
 	buildTable(reqs, table)
+	buildTable(reqs0, table)
+	// what the node answers to the daemon's start-up question "which requests are still waiting for this validator?"
+	var startupPending []uint64
+	if len(reqs0) > 0 {
+		bz := app.AppCodec().MustMarshal(&oracletypes.QueryPendingRequestsRequest{ValidatorAddress: me.Val.String()})
+		if r, err := app.Query(context.Background(), &abci.RequestQuery{Path: "/band.oracle.v1.Query/PendingRequests", Data: bz}); err == nil && r.Code == 0 {
+			var resp oracletypes.QueryPendingRequestsResponse
+			if app.AppCodec().Unmarshal(r.Value, &resp) == nil {
+				earlier := map[uint64]bool{}
+				for _, ri := range reqs0 {
+					earlier[ri.ID] = true
+				}
+				for _, id := range resp.RequestIDs {
+					if earlier[id] {
+						startupPending = append(startupPending, id)
+					}
+				}
+			}
+		}
+	}
 	// optional second phase: the owner replaces the executable of a data source the first batch used, then new requests use it
 	var reqs2 []*reqInfo
 	var table2 map[string][]byte
 	editedDS := uint64(0)
-	if len(reqs) > 0 && ch.Bool("cfg.editphase", 250) {
+	if len(reqs) > 0 && len(reqs0) == 0 && ch.Bool("cfg.editphase", 250) {
 		r0 := reqs[ch.Intn("edit.req", len(reqs))]
 		dsid := r0.Stored.RawRequests[ch.Intn("edit.raw", len(r0.Stored.RawRequests))].DataSourceID
 		newExec := []byte(strings.Repeat("Z", 3+ch.Intn("edit.len", 60)) + fmt.Sprint(dsid))
@@ -430,7 +476,7 @@ func RunOne(o core.RunOpts) (res *core.RunResult) {
 	if len(reqs) == 0 {
 		return res
 	}
-	allReqs := append(append([]*reqInfo{}, reqs...), reqs2...)
+	allReqs := append(append(append([]*reqInfo{}, reqs0...), reqs...), reqs2...)
 
 	// ---- daemon part, inside the bubble ------------------------------------------------------
 	maxTry := uint64(2 + ch.Intn("cfg.maxtry", 4))
@@ -558,6 +604,10 @@ func RunOne(o core.RunOpts) (res *core.RunResult) {
 					}
 				}
 			}
+			// the start-up scan of run.go: every id the node reports as pending is marked and handed to the request handler
+			for _, id := range startupPending {
+				go yc.VerifStartupPending(oracletypes.RequestID(id))
+			}
 			deliver(reqs, "start")
 			t0 := time.Now()
 			s.run(int(maxTry)*2 + 45)
@@ -590,6 +640,14 @@ func RunOne(o core.RunOpts) (res *core.RunResult) {
 				fail("report_for_unchosen_request", "", "request %d did not choose the validator but %d reports were queued", ri.ID, len(msgs))
 			}
 			st.Trace("not-chosen")
+			continue
+		}
+		if ri.ReportedBefore {
+			// the validator's one report is already on chain: a restarted daemon must not produce another
+			if len(msgs) != 0 {
+				fail("report_duplicated", "after_restart", "request %d was already reported by this validator before the daemon restarted, yet %d more reports were queued", ri.ID, len(msgs))
+			}
+			st.Trace("reported-before-restart")
 			continue
 		}
 		if len(msgs) != 1 {
